@@ -136,8 +136,10 @@ func (fr *Frame) applyCall(instr ssa.Instruction, cc *ssa.CallCommon, recv Val, 
 					fr.ownerVal = &ov
 				}
 			}
+			fr.selfVal = &recv
 			st2, vals := fr.applyContract(c, c.Func, sig, nil, args, st, pos)
 			fr.ownerVal = nil
+			fr.selfVal = nil
 			bind(vals, rt)
 			return st2
 		}
@@ -557,6 +559,10 @@ func (fr *Frame) applyContract(c *Contract, key string, sig *types.Signature, re
 	if fr.ownerVal != nil {
 		env.vars["owner"] = *fr.ownerVal
 	}
+	if fr.selfVal != nil {
+		// the function value being called (contracts of function-typed parameters / fields)
+		env.vars["self"] = *fr.selfVal
+	}
 	fr.callOrd[key]++
 	ord := fr.callOrd[key]
 	// ghost updates anchored before this call (top-level frame only)
@@ -839,6 +845,9 @@ func shortKey(key string) string {
 
 func contractPkg(key string) string {
 	k := strings.TrimPrefix(key, "iface:")
+	k = strings.TrimPrefix(k, "paramfunc:")
+	k = strings.TrimPrefix(k, "fieldfunc:")
+	k = strings.TrimPrefix(k, "functype:")
 	k = strings.TrimPrefix(k, "(")
 	k = strings.TrimPrefix(k, "*")
 	if i := strings.Index(k, "."); i >= 0 {
